@@ -230,6 +230,7 @@ func (a Action) MultiPartsP(delimiter string, pattern string, f func(placeholder
 // NoSpace disables space suffix for given characters (or all if none are given).
 func (a Action) NoSpace(suffixes ...rune) Action {
 	return ActionCallback(func(c Context) Action {
+		a := a // the captured action is shared by all invocations
 		if len(suffixes) == 0 {
 			a.meta.Nospace.Add('*')
 		}
@@ -531,6 +532,7 @@ func (a Action) Usage(usage string, args ...interface{}) Action {
 // Usage sets the usage using a function.
 func (a Action) UsageF(f func() string) Action {
 	return ActionCallback(func(c Context) Action {
+		a := a // the captured action is shared by all invocations
 		if usage := f(); usage != "" {
 			a.meta.Usage = usage
 		}
